@@ -1974,7 +1974,41 @@ class Engine:
         st.vars[k] = v
     st.aux = js.aux
     self._narrow_args(target, e, js, st, func)
+    self._writeback_args(target, e, js, st, func)
     return self._wrap(self.dom.call_result(target, ret, e, st))
+
+  def _writeback_args(self, target, e, js, st, func):
+    """A parameter the callee only updates in place (`p += ...`, `p[i] =
+    ...`, never `p = ...`) is the caller's array: the caller's variable takes
+    the callee's final value of it (joined with its own: a weak update)."""
+    aug, plain = set(), set()
+    for n in ast.walk(target.node):
+      if isinstance(n, ast.AugAssign):
+        t = n.target
+        while isinstance(t, ast.Subscript):
+          t = t.value
+        if isinstance(t, ast.Name):
+          aug.add(t.id)
+      elif isinstance(n, ast.Assign):
+        for t in n.targets:
+          if isinstance(t, ast.Subscript):
+            b = t.value
+            while isinstance(b, ast.Subscript):
+              b = b.value
+            if isinstance(b, ast.Name):
+              aug.add(b.id)
+          else:
+            for y in ast.walk(t):
+              if isinstance(y, ast.Name):
+                plain.add(y.id)
+    for p, an in self._arg_pairs(target, e, func):
+      if p in aug and p not in plain and isinstance(an, ast.Name) and \
+              an.id in st.vars and isinstance(js.vars.get(p), V) and \
+              isinstance(st.vars[an.id], V):
+        cur, cv = st.vars[an.id], js.vars[p]
+        if cur is not cv:
+          st.vars[an.id] = cv if cur.ty == 'ndarray' or cv.ty == 'ndarray' \
+              else self.join_v(cur, cv)
 
   def _arg_pairs(self, target, e, func):
     """[(formal name, actual ast)] of a call expression"""
